@@ -1351,3 +1351,42 @@ mutant('C12', 'start-instant-by-star-pattern-first-element', SV, _START_OLD + ""
                 self.__powertrain.update_time(initial_time)
                 self._compute_powertrain_variables(motor_control=motor_control)
 """, 'C12')
+_SCAN_POS = """        locking_stage = next(
+            (stage for stage, element in enumerate(self.elements[1:]) if isinstance(element, WormGear) and element.self_locking),
+            None
+        )
+        self.__self_locking = %s
+"""
+benign('C20', 'scan-by-position-tested-against-none', PT, SCAN_OLD, _SCAN_POS % 'locking_stage is not None')
+mutant('C20', 'scan-by-position-tested-for-truth', PT, SCAN_OLD, _SCAN_POS % 'bool(locking_stage)', 'C20.locking')
+mutant('C13', 'scan-by-position-tested-for-truth', PT, SCAN_OLD, _SCAN_POS % 'bool(locking_stage)', 'C13.flag-source')
+_WW_BEND_OLD = """        if self.mating_role == MatingMaster:
+            normal_pitch = \\
+                pi*self.drives.reference_diameter * \\
+                self.drives.helix_angle.sin()/self.n_teeth
+            effective_face_width = min(
+                self.face_width, 0.67*self.drives.reference_diameter
+            )
+        elif self.mating_role == MatingSlave:
+            normal_pitch = \\
+                pi*self.driven_by.reference_diameter * \\
+                self.driven_by.helix_angle.sin()/self.n_teeth
+            effective_face_width = min(
+                self.face_width, 0.67*self.driven_by.reference_diameter
+            )
+        else:
+"""
+_WW_BEND_NEW = """        if self.mating_role in [MatingMaster, MatingSlave]:
+            is_slave = self.mating_role == MatingSlave
+            worm_gear = self.driven_by if is_slave else self.drives
+            normal_pitch = \\
+                pi*worm_gear.reference_diameter * \\
+                worm_gear.helix_angle.sin()/self.n_teeth
+            effective_face_width = min(
+                self.face_width,
+                %s
+            )
+        else:
+"""
+benign('C09', 'worm-wheel-bending-roles-merged', WW, _WW_BEND_OLD, _WW_BEND_NEW % '0.67*(self.driven_by.reference_diameter if is_slave else self.drives.reference_diameter)')
+mutant('C09', 'worm-wheel-bending-roles-merged-precedence-slip', WW, _WW_BEND_OLD, _WW_BEND_NEW % '0.67*self.driven_by.reference_diameter if is_slave else self.drives.reference_diameter', 'C09.bending')
